@@ -417,6 +417,58 @@ MUTANTS = [
            lambda f, t: f.body.insert(0, stmts("if len(kwargs) > 255:\n    raise ValueError('too many keyword arguments')")[0]), also=("C11",)),
     Mutant("C01", "msgpack-loadsCall-kwargs-items-unguarded", "C01-R9", SER, "MsgpackSerializer.loadsCall",
            lambda f, t: replace_expr(f, lambda e: u(e) == "self.recreate_classes(kwargs)", "self.recreate_classes({str(k): v for k, v in kwargs.items()})")),
+    # ---- round-4 rules and the rules for F19-F28
+    Mutant("C01", "convertToBytes-returns-underlying-buffer", "C01-R11", SER, "SerializerBase._convertToBytes",
+           lambda f, t: replace_expr(f, lambda e: u(e) == "data.tobytes()", "data.obj")),
+    Mutant("C01", "marshal-lists-passed-through-unconverted", "C01-R10", SER, "MarshalSerializer.convert_obj_into_marshallable",
+           lambda f, t: replace_expr(f, lambda e: u(e) == "(str, int, float, type(None), bool, complex, bytes, bytearray)",
+                                     "(str, int, float, type(None), bool, complex, bytes, bytearray, list, tuple)"), also=("C11",)),
+    Mutant("C02", "reset-cache-key-without-class-normalisation", "C02-R3", S, "_reset_exposed_members",
+           lambda f, t: delete_stmt(f, lambda s: isinstance(s, ast.If) and "isclass" in u(s.test))),
+    Mutant("C02", "msgpack-loadsCall-coerces-method-name", "C02-R6", SER, "MsgpackSerializer.loadsCall",
+           lambda f, t: replace_expr(f, lambda e: isinstance(e, ast.Tuple) and isinstance(e.ctx, ast.Load) and u(e) == "(obj, method, vargs, kwargs)", "(obj, str(method), vargs, kwargs)")),
+    Mutant("C03", "invoke-handler-narrowed-to-connection-closed", "C03-R2", C, "Proxy._pyroInvoke",
+           lambda f, t: replace_expr(f, lambda e: u(e) == "(errors.CommunicationError, KeyboardInterrupt)", "(errors.ConnectionClosedError, KeyboardInterrupt)")),
+    Mutant("C07", "default-error-hook-indexes-client-address", "C07-R6", S, "_default_methodcall_error_handler",
+           lambda f, t: replace_expr(f, lambda e: isinstance(e, ast.Constant) and isinstance(e.value, str) and e.value.startswith("exception occurred in method call"),
+                                     "'exception occurred in method call user code: client={0[0]} method={1} exception={2}'")),
+    Mutant("C08", "handshake-adopts-serializer-id-before-lookup", "C08-R4", S, "Daemon._handshake",
+           lambda f, t: _move_before(f, lambda s: u(s) == "serializer_id = msg.serializer_id", lambda s: u(s).startswith("serializer = serializers.serializers_by_id["), None), also=("C18",)),
+    Mutant("C09", "session-table-shared-default", "C09-R7", SU, "SocketConnection.__init__",
+           lambda f, t: replace_stmt(f, lambda s: u(s).startswith("self.pyroInstances ="), stmts("self.pyroInstances = _NO_INSTANCES"))),
+    Mutant("C10", "stream-removal-with-plain-del", "C10-R1", S, "DaemonObject.get_next_stream_item",
+           lambda f, t: replace_stmt(f, lambda s: isinstance(s, ast.Expr) and "streaming_responses.pop(" in u(s), stmts("del self.daemon.streaming_responses[streamId]"))),
+    Mutant("C10", "stream-table-shared-default", "C10-R7", S, "Daemon.__init__",
+           lambda f, t: replace_stmt(f, lambda s: u(s).startswith("self.streaming_responses ="), stmts("self.streaming_responses = _NO_STREAMS"))),
+    Mutant("C13", "tracked-resources-shared-default", "C13-R6", SU, "SocketConnection.__init__",
+           lambda f, t: replace_stmt(f, lambda s: u(s).startswith("self.tracked_resources"), stmts("self.tracked_resources = _NO_RESOURCES"))),
+    Mutant("C14", "sql-setitem-writes-key-instead-of-uri", "C14-R10", NSV, "SqlStorage.__setitem__",
+           lambda f, t: replace_expr(f, lambda e: u(e) == "(key, uri)", "(key, key)"), also=("C19",)),
+    Mutant("C15", "sql-getitem-without-read-transaction", "C15-R3", NSV, "SqlStorage.__getitem__",
+           lambda f, t: delete_stmt(f, lambda s: isinstance(s, ast.Expr) and "BEGIN" in u(s))),
+    Mutant("C16", "class_to_dict-detaches-the-object", "C16-R7", SER, "SerializerBase.class_to_dict",
+           lambda f, t: f.body.insert(1, stmts("if hasattr(obj, '_pyroDaemon'):\n    obj._pyroDaemon = None")[0])),
+    Mutant("C16", "nothing-exposed-test-ignores-attributes", "C16-R9", C, "Proxy.__processMetadata",
+           lambda f, t: set_test(f, lambda e: u(e) == "not self._pyroMethods and (not self._pyroAttrs)", "not self._pyroMethods")),
+    Mutant("C16", "registry-shared-default", "C16-R8", S, "Daemon.__init__",
+           lambda f, t: replace_stmt(f, lambda s: u(s).startswith("self.objectsById ="), stmts("self.objectsById = _REGISTRY"))),
+    Mutant("C17", "partialData-dropped-on-fatal-errno", "C17-R2", SU, "receive_data",
+           lambda f, t: delete_stmt(f, lambda s: u(s) == "err.partialData = data", count=1)),
+    Mutant("C17", "buffer-reset-inside-retry-loop", "C17-R1", SU, "receive_data",
+           lambda f, t: [w for w in ast.walk(f) if isinstance(w, ast.While) and any(isinstance(x, ast.While) for b in w.body for x in ast.walk(b))][-1].body.insert(
+               0, stmts("data = bytearray()")[0]), also=("C06",)),
+    Mutant("C17", "sendall-retried-in-a-loop", "C17-R3", SU, "send_data",
+           lambda f, t: replace_stmt(f, lambda s: isinstance(s, ast.Try) and "sendall" in u(s), lambda s: [ast.While(test=ast.Constant(True), body=[s], orelse=[])])),
+    Mutant("C18", "deny-handler-narrowed-to-oserror", "C18-R3", ST, "ClientConnectionJob.denyConnection",
+           lambda f, t: [setattr(h, "type", ast.parse("OSError", mode="eval").body) for n in ast.walk(f) if isinstance(n, ast.Try) for h in n.handlers], also=("C05",)),
+    Mutant("C18", "pool-sets-shared-default", "C18-R5", ST, "Pool.__init__",
+           lambda f, t: replace_stmt(f, lambda s: u(s) == "self.busy = set()", stmts("self.busy = _BUSY"))),
+    Mutant("C19", "blank-metadata-tag-set-accepted", "C19-R4", CO, "URI.__init__",
+           lambda f, t: delete_stmt(f, lambda s: isinstance(s, ast.If) and u(s.test) == "not self.object")),
+    Mutant("C20", "member-name-not-screened-for-proxy-internals", "C20-R3", GW, "process_pyro_request",
+           lambda f, t: delete_stmt(f, lambda s: isinstance(s, ast.If) and "startswith('_')" in u(s.test))),
+    Mutant("C20", "cached-nameserver-returned-unchecked", "C20-R3", GW, "get_nameserver",
+           lambda f, t: replace_stmt(f, lambda s: isinstance(s, ast.Try), stmts("return _nameserver"))),
     Mutant("C01", "marshal-call-envelope-swapped", "C01-R7", SER, "MarshalSerializer.dumpsCall",
            lambda f, t: replace_expr(f, lambda e: u(e) == "(obj, method, vargs, kwargs)", "(obj, method, kwargs, vargs)")),
     Mutant("C01", "json-call-envelope-key-mismatch", "C01-R7", SER, "JsonSerializer.loadsCall",
@@ -790,6 +842,8 @@ def _job(job):
         return (kind, prop, payload, status, new, msg)
     except LookupError as x:
         return (kind, prop, payload, "skipped", [], "anchor of the mutant not found in the current tree: %s" % x)
+    except SyntaxError as x:
+        return (kind, prop, payload, "error", [], "the edit does not compile: %s" % x)
     finally:
         shutil.rmtree(d, ignore_errors=True)
 
